@@ -255,6 +255,8 @@ class AbsExec:
                     return not a
                 if isinstance(a, int):
                     return ~a
+                if isinstance(a, tuple) and len(a) == 4 and a[0] == "cond":
+                    return (a[0], a[1], a[2], not a[3])
             if rv["op"] == "Neg" and isinstance(a, int):
                 return -a
             if rv["op"] == "PtrMetadata":
